@@ -24,7 +24,7 @@ func init() {
 		ID:   "C12",
 		Rule: "every element node of generated resources of every R4 type (declared type from its schema position: descriptor kind, structure-definition URL, value-set binding, presence of modifierExtension) x every type specifier in {all resource names, all complex datatype names, all primitive names, Element, BackboneElement, Resource, DomainResource, System.* names} with and without namespace: `x is T` must equal declared(x) <: T in the R4 hierarchy and `x as T` must return x itself iff so; elements supplied as %env values (all specifiers) and reached by indexed paths (seeded specifier sample incl. all supertypes); choice wrappers looked through; System values/literals use System types; unknown names/namespaces must be rejected by Compile. distinct_nontrivial = distinct (declared type, specifier) pairs evaluated with a true expected answer or a same-family false answer",
 		Assumptions: []string{"R4 hierarchy: primitives specialise per the statement; a datatype or nested component carrying modifierExtension is a BackboneElement; Bundle, Binary, Parameters derive directly from Resource; Age/Count/Distance/Duration/MoneyQuantity/SimpleQuantity derive from Quantity",
-			"xhtml and ReferenceId nodes are not typed by the model and are skipped"},
+			"xhtml elements are only placed below Element (no specifier names the type itself); ReferenceId nodes are not typed by the model and are skipped"},
 		Run:    runC12,
 		Checks: map[string]func(*core.Env, []json.RawMessage){"resource": replayC12, "sys": replayC12Sys},
 		Threshold: func(m *core.Merged) []string {
@@ -192,6 +192,9 @@ func c12Resource(env *core.Env, tn string, seed uint64, rich bool) {
 		}
 		kind := kindOfType(nd.MD, declared)
 		env.Cover("kind:" + kind)
+		if declared.Name == "xhtml" {
+			env.Cover("xhtml-element")
+		}
 		// each descriptor a bounded number of times per resource
 		key := string(nd.MD.FullName())
 		seenKinds[key]++
